@@ -126,6 +126,22 @@ def event_world(seed, twins=True):
             w.genes.append(g)
             lm = (pos + 1000, pos + 1099)
             rm = (pos + 7000, pos + 7099)
+            # the tail of a read aligned as separate block(s) onto a genomic T (A) stretch next to the gene: polyT head for the '-' gene,
+            # polyA tail for the '+' gene
+            seq = w.chroms[chrom]
+            if strand == "-":
+                for q in range(pos - 600, pos - 570):
+                    seq[q - 1] = "T"
+                tail_block = (pos - 600, pos - 571)
+                tail_reads = [[tail_block, e0, e1, e2], [tail_block, (e0[0], e0[1]), e1, e2, e3]]
+            else:
+                for q in range(pos + 8600, pos + 8630):
+                    seq[q - 1] = "A"
+                tail_block = (pos + 8600, pos + 8629)
+                tail_reads = [[e2, e3, e4, tail_block], [e1, e2, e3, e4, tail_block]]
+            for tr in tail_reads:
+                for _ in range(2):
+                    w.make_read(chrom, tr, flag=16 if strand == "-" else 0, truth={"src": gid + ".t1", "class": "tail-aligned-as-terminal-exon"})
             for _ in range(3):
                 w.make_read(chrom, exs, truth={"src": gid + ".t1", "class": "exact"})
                 w.make_read(chrom, [lm, e1, e2, e3, e4], truth={"src": gid + ".t1", "class": "misplaced-terminal-exon-left"})
@@ -178,7 +194,7 @@ def check_bed12(chk, b, clen, desc, wit):
 def run(chk, scratch):
     thorough = chk.tier == "thorough"
     chk.rule = ("reads built to trigger each correction event (junction jitter with and without sequence errors next to the junction, skipped micro-exon, "
-                "retained micro-intron, intron shift, junctions lying between two annotated introns 2-6 bp apart, fake terminal exons, missed short terminal exons, far alternative sites) plus noisy rich worlds, x all "
+                "retained micro-intron, intron shift, tails aligned as separate terminal blocks onto genomic A/T stretches, junctions lying between two annotated introns 2-6 bp apart, fake terminal exons, missed short terminal exons, far alternative sites) plus noisy rich worlds, x all "
                 "six splice-correction strategies x data types, with and without annotation / short-read BAM; every BED record judged. "
                 "non-trivial = distinct (strategy, read class, changed?) among reads whose corrected alignment differs from the input")
     strategies = list(STRATEGY_FLAGS)
@@ -274,10 +290,22 @@ def run(chk, scratch):
                         break
                 tsv_exons = tsv_exons or recs[0].exons
             else:
-                cand = inp.get((b.name, b.chr), [])
+                cand = list(inp.get((b.name, b.chr), []))
+                # terminal blocks that are aligned tails (>= 75 % A or T in the reference) are removed before anything else is done
+                for e in list(cand):
+                    e2 = list(e)
+                    while len(e2) > 1 and max(w.seq_of(b.chr, *e2[0]).count("T"), w.seq_of(b.chr, *e2[0]).count("A")) >= 0.75 * (e2[0][1] - e2[0][0] + 1):
+                        e2 = e2[1:]
+                    while len(e2) > 1 and max(w.seq_of(b.chr, *e2[-1]).count("T"), w.seq_of(b.chr, *e2[-1]).count("A")) >= 0.75 * (e2[-1][1] - e2[-1][0] + 1):
+                        e2 = e2[:-1]
+                    if e2 != list(e):
+                        cand.append(e2)
                 tsv_exons = None
                 for e in cand:
                     if e[0][0] - 1 == b.start or e[-1][1] == b.end:
+                        tsv_exons = e
+                for e in cand:
+                    if e[0][0] - 1 == b.start and e[-1][1] == b.end:
                         tsv_exons = e
                 tsv_exons = tsv_exons or (cand[0] if cand else None)
             if tsv_exons is None:
